@@ -1,6 +1,6 @@
 (* ParseSkelFacts.v -- C01 (extension): the skeleton layer of a parse returns for every token
    list; only the leaf parsers remain a hypothesis (leaves_total).                            *)
-From CssV Require Import Base Regex Tokenizer TokenizerFacts Quote Gen.Quote Upto UptoFacts Skeleton SkeletonFacts
+From CssV Require Import Base Regex Tokenizer TokenizerFacts Quote Gen.StrTokenValue Upto UptoFacts Skeleton SkeletonFacts
      ParseTotal ParseTotalFacts ParseSkel.
 Local Open Scope nat_scope.
 
